@@ -138,16 +138,12 @@ class BVExtractConstants:
                 and is_bv_const(node[1]))
 
     def mutations(self, node):
-        if node[1].has_ident():
-            assert node[1][0] == '_'
-            val, bw = get_bv_constant_value(node[1])
-            constant = bin(val)[2:]
-            diff = bw - len(constant)
-            if diff > 0:
-                constant = f"{'0' * diff}{constant}"
-        else:
-            assert node[1].data.startswith('#b')
-            constant = node[1][2:]
+        # works for all notations: #b..., #x... and (_ bvN w)
+        val, bw = get_bv_constant_value(node[1])
+        constant = bin(val)[2:]
+        diff = bw - len(constant)
+        if diff > 0:
+            constant = f"{'0' * diff}{constant}"
         n = len(constant)
         idx = get_indices(node[0], 'extract', 2)
         upper = n - idx[0] - 1
